@@ -6,6 +6,7 @@
 (*                                        context "inherit" | "clear" | "k1" | "k2"  *)
 (*   [t |-> "batch", g, ds, ctx, rf, catch]  g.call_batch over <<a - d : d \in ds>>   *)
 (*                                        with raise_first_exception = rf             *)
+(*                                        (both optionally with mod: "ignore" | "local")  *)
 (*   [t |-> "res",   r]                   obtain resource handle r                    *)
 (*   [t |-> "raise", when]                raise a memoizable exception if a = when     *)
 (*   [t |-> "bad",   when]                if a = when the body RETURNS a value that cannot be  *)
@@ -21,6 +22,12 @@
 (* Run(P, memo, f, a, c)  which bodies run, in order, when the call is made against a   *)
 (*     store in which exactly the keys in memo are memoized, and the store afterwards.  *)
 EXTENDS Naturals, Sequences, FiniteSets, TLC
+
+\* a call or batch step may be made through a modifier of the callee: "ignore" (ignore_result(): the callee runs and is
+\* memoized like any other, the caller receives None unless the callee failed) or "local" (force_local(): no difference
+\* in meaning); steps without the field are plain
+ModOf(s) == IF "mod" \in DOMAIN s THEN s.mod ELSE "normal"
+Seen(s, rec) == IF ModOf(s) = "ignore" /\ rec.out = "V" THEN <<"N">> ELSE rec.val
 
 CtxAfter(cur, spec) == CASE spec = "inherit" -> cur [] spec = "clear" -> "none" [] OTHER -> spec
 SeqToSet(s) == {s[i] : i \in 1..Len(s)}
@@ -45,7 +52,7 @@ Den(P, f, a, c) ==
                           a1  == [acc EXCEPT !.invs = Append(@, <<s.g, a - s.d, c2>>),
                                              !.deps = @ \cup sub.deps]
                       IN Go(i + 1,
-                            IF sub.out = "V" THEN [a1 EXCEPT !.subs = Append(@, sub.val)]
+                            IF sub.out = "V" THEN [a1 EXCEPT !.subs = Append(@, Seen(s, sub))]
                             ELSE IF s.catch THEN [a1 EXCEPT !.subs = Append(@, sub.val)]
                             ELSE [a1 EXCEPT !.ab = sub.val])
             [] s.t = "batch" ->
@@ -55,7 +62,7 @@ Den(P, f, a, c) ==
                      a1   == [acc EXCEPT !.invs = @ \o [j \in 1..Len(args) |-> <<s.g, args[j], c2>>],
                                          !.deps = @ \cup UNION {subs[j].deps : j \in 1..Len(args)}]
                      errs == {j \in 1..Len(args) : subs[j].out # "V"}
-                     vals == [j \in 1..Len(args) |-> subs[j].val]
+                     vals == [j \in 1..Len(args) |-> Seen(s, subs[j])]
                  IN Go(i + 1,
                        IF s.rf /\ errs # {}
                        THEN LET first == subs[CHOOSE j \in errs : \A k \in errs : j <= k].val IN
